@@ -114,6 +114,21 @@ CHECKS["C16"] = dict(
     ref="DESIGN.md 5.C16",
 )
 
+CHECKS["C18"] = dict(
+    engine="symx+z3",
+    technique="bounded symbolic execution (symx/z3): node flags and the three format options are z3 Bools flowing into the real _format code; oracle = a reader written from the documented marker grammar",
+    text="For 7 tree shapes (frames > contexts > inner stacks / child contexts / child task stacks: populated, stub, without root; leaf; errors incl. multi-line) with every combination of the symbolic flags (hide, hide_line, is_exiting, start_line presence; thorough also is_async / obj presence on more nodes), marker look-alike descriptions and varnames, and all 8 option combinations: every line is a single newline-terminated line, str() is the concatenation, the Unicode text reads back to exactly the object's visible structure, the ASCII text is the per-marker substitution of the Unicode text, show_contexts=False prints exactly the frame series.",
+    note="Strings containing newlines and symbolic strings are outside; the number of flagged nodes per shape is bounded (quick: 1 frame, 2 contexts, 1 text; thorough: 2/3/2).",
+    ref="DESIGN.md 5.C18",
+)
+CHECKS["C19"] = dict(
+    engine="symx+z3",
+    technique="bounded symbolic execution (symx/z3): node flags and show_contexts / show_hidden_frames / capture_locals as z3 Bools through the real summary code; oracle = reference projection written from the docstrings",
+    text="Same trees and flags as C18 x 8 option combinations: the StackSummary has exactly the reference projection's entries (filename, line, name, presence and names of locals), pickles round-trip, holds no frame, and format_flat() is header + StackSummary.format() + leaf line + error lines.",
+    note="Line numbers are concrete (the standard library looks source lines up eagerly); start_line == 0 is outside; values of captured locals are not compared (the standard library re-applies repr()).",
+    ref="DESIGN.md 5.C19",
+)
+
 NOT_APPLICABLE = {
     "C06": "Quantifies over interpreter bookkeeping (reference counts, object lifetime, crashes) behind a ctypes boundary; no value a solver can range over, and any symbolic engine perturbs the very refcounts measured (DESIGN.md 5.C06).",
     "C07": "OS-thread interleavings against raw-memory reads; depends on when CPython releases the GIL, not on Python-level data; needs a runtime schedule controller, a different technique family (DESIGN.md 5.C07).",
